@@ -276,20 +276,22 @@ def solve_lp(
     # objective evaluated at the returned point whenever there is one.
     objective_value: float | None = None
     if result.fun is not None:
-        # Fallback (no point returned, or the tree evaluation fails): the
-        # solver's number with the negation for maximization undone
-        objective_value = float(result.fun)
-        if lp_data.sense == "max":
-            objective_value = -objective_value
         if values:
-            try:
-                import numpy as np
+            import numpy as np
 
-                objective_value = float(
-                    np.asarray(problem.objective.evaluate(values)).item()
-                )
-            except Exception:
-                pass
+            # (.item(): the evaluation of an objective holding a one-element array
+            # constant is a one-element array. An evaluation that raises -- e.g.
+            # RecursionError for a deep objective re-solved from cached LP data
+            # outside increased_recursion_limit -- propagates: linprog's number
+            # lacks the constant term and must not stand in for it.)
+            objective_value = float(
+                np.asarray(problem.objective.evaluate(values)).item()
+            )
+        else:
+            # No point returned: undo the negation for maximization
+            objective_value = float(result.fun)
+            if lp_data.sense == "max":
+                objective_value = -objective_value
 
     # Build informative message for unbounded/infeasible cases
     message = result.message if hasattr(result, "message") else ""
